@@ -545,6 +545,46 @@ impl<T: Debug + Clone + PartialEq + Eq + PartialOrd + NullableValue> Range<T> {
     }
 }
 
+/// Verification hooks (guard: `--cfg trustfall_verif`). Add-only; not part of the public API.
+#[cfg(trustfall_verif)]
+pub mod __verif {
+    use super::*;
+
+    pub fn range_new(
+        start: Bound<FieldValue>,
+        end: Bound<FieldValue>,
+        null_included: bool,
+    ) -> Range<FieldValue> {
+        Range::new(start, end, null_included)
+    }
+
+    pub fn range_intersect(mut a: Range<FieldValue>, b: Range<FieldValue>) -> Range<FieldValue> {
+        a.intersect(b);
+        a
+    }
+
+    pub fn cv_intersect(
+        mut a: CandidateValue<FieldValue>,
+        b: CandidateValue<FieldValue>,
+    ) -> CandidateValue<FieldValue> {
+        a.intersect(b);
+        a
+    }
+
+    pub fn cv_normalize(mut a: CandidateValue<FieldValue>) -> CandidateValue<FieldValue> {
+        a.normalize();
+        a
+    }
+
+    pub fn cv_exclude(
+        mut a: CandidateValue<FieldValue>,
+        v: &FieldValue,
+    ) -> CandidateValue<FieldValue> {
+        a.exclude_single_value(v);
+        a
+    }
+}
+
 #[cfg(test)]
 mod tests {
     use std::ops::Bound;
